@@ -171,7 +171,72 @@ def gain_at (m, dirs):
     return np.array (out)
 # end def gain_at
 
+def make_indep (c):
+    """ every object with a motion of its own, the requests of different objects under the same keys """
+    rng  = np.random.default_rng ([c ['seed'], 52, c ['i']])
+    spec = gen.fam_free (rng, fam = str (rng.choice (['yagi', 'vee', 'L', 'zig', 'star3', 'T'])), shift = False)
+    spec = gen.clean (spec)
+    lam  = gen.C_MHZ / spec ['f']
+    for i, g in enumerate (spec ['geo']):
+        g ['tag'] = int ((i + 1) * int (rng.choice ([1, 3])))
+    keys = [float (k) for k in rng.choice ([1, 2, 10, -1], size = 2, replace = False)]
+    per  = {}
+    for g in spec ['geo']:
+        lst = []
+        for key in keys [: int (rng.integers (1, 3))]:
+            if rng.random () < 0.65:
+                lst.append (['rotate', key, [float (np.round (rng.uniform (-180, 180), 2)) if rng.random () < 0.8 else 0.0 for k in range (3)]])
+            else:
+                lst.append (['translate', key, [float (x) for x in rng.uniform (-1, 1, 3) * lam]])
+        per [g ['tag']] = lst
+    spec ['indep'] = dict (per = {str (k): v for k, v in per.items ()}, order = int (rng.integers (0, 1000)))
+    return spec
+# end def make_indep
+
+def check_indep (spec):
+    per  = {int (k): v for k, v in spec ['indep']['per'].items ()}
+    base = {k: v for k, v in spec.items () if k != 'indep'}
+    def T (tag, x):
+        x = np.asarray (x, float)
+        for kind, key, v in sorted (per [tag], key = lambda t: t [1]):
+            x = georef.rot_xyz (v) @ x if kind == 'rotate' else x + np.asarray (v, float)
+        return x
+    opts = [[kind, key, v, tag] for tag, lst in per.items () for kind, key, v in lst]
+    rng  = np.random.default_rng (spec ['indep']['order'])
+    opts = [opts [i] for i in rng.permutation (len (opts))]
+    b1 = copy.deepcopy (base)
+    b1 ['tr'] = opts
+    b2 = copy.deepcopy (base)
+    for g in b2 ['geo']:
+        g ['p1'] = T (g ['tag'], g ['p1']).tolist ()
+        g ['p2'] = T (g ['tag'], g ['p2']).tolist ()
+    mA, mB, mC = gen.build (base), gen.build (b1), gen.build (b2)
+    viol, mon = [], {}
+    size = max (np.linalg.norm (np.asarray (p, float)) for g in mC.geo for s in g.segments for p in (s.p1, s.p2)) + 1e-300
+    worst = 0.0
+    for name, ma, mb, f in (('geometry.options', mA, mB, T), ('geometry.routes', mC, mB, lambda tag, x: x)):
+        d = 0.0
+        for ga, gb in zip (ma.geo, mb.geo):
+            if ga.tag != gb.tag or len (ga.segments) != len (gb.segments):
+                d = np.inf
+                break
+            for sa, sb in zip (ga.segments, gb.segments):
+                for pa, pb in ((sa.p1, sb.p1), (sa.p2, sb.p2)):
+                    d = max (d, np.linalg.norm (f (ga.tag, np.asarray (pa, float)) - np.asarray (pb, float)) / size)
+        mon [name] = 1
+        worst = max (worst, d / 1e-9)
+        if not (d <= 1e-9):
+            viol.append (dict (monitor = name, key = name, msg = 'objects moved one by one (%d requests under keys %s): segment end points deviate %.3g of the size from %s'
+                               % (len (opts), sorted (set (o [1] for o in opts)), d, 'the documented motion' if name.endswith ('options') else 'the coordinate route'), measured = d, allowed = 1e-9))
+    sig = 'indep|%s|n%d|%s' % (spec.get ('fam'), len (spec ['geo']), '+'.join (sorted (set (o [0] for o in opts))))
+    return dict (status = 'violation' if viol else 'held', sig = sig, nontrivial = True, margin = worst, monitors = mon, violations = viol)
+# end def check_indep
+
 def check (c):
+    if 'geo' not in c and c ['i'] % 8 == 7:
+        c = make_indep (c)
+    if 'indep' in c:
+        return check_indep (c)
     spec = c if 'geo' in c else make (c)
     if spec is None:
         return dict (status = 'discard', reason = 'no feed by location')
